@@ -367,7 +367,8 @@ fn mutate(rng: &mut Rng, stream: &mut Vec<u8>) -> &'static str {
 }
 
 fn mutation_case(rng: &mut Rng, rec: &mut Rec) {
-    let body_max = if rng.chance(1, 8) { 12_000 } else { 200 };
+    let lane = crate::core::lane_mode();
+    let body_max = if lane { 24 } else if rng.chance(1, 8) { 12_000 } else { 200 };
     let chain = gen_chain(rng, 2, body_max);
     let (ex, truth, _) = match chain.exchanges.first() {
         Some(e) => e,
@@ -379,11 +380,22 @@ fn mutation_case(rng: &mut Rng, rec: &mut Rec) {
     for _ in 0..n_mut {
         kinds.push(mutate(rng, &mut stream));
     }
+    if lane && stream.len() > 2_000 {
+        // the huge-name / huge-value / many-fields mutations are left to the native and ASan runs
+        stream.truncate(2_000);
+    }
     for k in &kinds {
         rec.cov(&format!("mutation/{}", k));
     }
     let huge = stream.len() > 50_000;
     let mut sched = Sched::random(rng, stream.len() < 3000);
+    if lane {
+        sched.arrive = *rng.pick(&[Prof::Big, Prof::Fixed(16), Prof::Mixed]);
+        sched.read_out = *rng.pick(&[Prof::Big, Prof::Fixed(8)]);
+        sched.head_out = Prof::Big;
+        sched.body_out = Prof::Big;
+        sched.body_in = Prof::Big;
+    }
     if huge {
         sched.arrive = *rng.pick(&[Prof::Big, Prof::Fixed(4096), Prof::Fixed(30_000)]);
         sched.read_out = Prof::Fixed(4096);
